@@ -2,7 +2,9 @@
 
 The meaning of a literal is its truth in ONE arbitrary (ghost) combined model: the integer valuation xt_x of the time points
 and the propositional assignment xt_sigma.  new_distance(from,to,d) is replaced in the callers by the contract
-"sigma(ret) <-> x_to - x_from <= d" (its body is proved in its own job against the registry-level contract)."""
+"sigma(ret) <-> x_to - x_from <= d"; its body is proved in its own job (idl.new_distance): shortcuts only when the distances
+decide, otherwise exactly this constraint is registered under a fresh variable (whose meaning propagate enforces: C10).
+The expression queries bounds / distance / equates have their own jobs with a native replay."""
 from vlib.engine import Contract, Job, Known
 
 TUS = ['smt/arith/dl/idl_theory.cpp', 'smt/arith/lin.cpp', 'smt/arith/rational.cpp']
@@ -127,4 +129,64 @@ def jobs(tier):
   required = "true exactly when 0 lies in the interval of l0 - l1 derived from the variable-level distances";
 '''},
                    bounded='l0 <= 2 terms, l1 <= 1 term over %d time points; |coefficients| < 2^%d, |x| <= 4, finite distances only' % (d['XT_NTP'], W)))
+    # ---- new_distance(from, to, dist), the body behind the contract the relations assume: the TRUE / FALSE shortcuts are taken only
+    # when the current distances decide the constraint for every consistent valuation; otherwise a fresh variable is created, bound
+    # to the theory, and registered with exactly this constraint (the meaning of that literal is then enforced by propagate: C10)
+    NV, BIND = 'smt_sat_core_new_var', 'smt_theory_bind__U'
+    SATP = 'self->base_theory.sat'
+    c_nv = Contract(requires=['self->assigns.n < 6'], ensures=[('fresh', '%s == __CPROVER_old(self->assigns.n) && self->assigns.n == __CPROVER_old(self->assigns.n) + 1' % R)], assigns='self->assigns')
+    c_bind = Contract(requires=['1'], ensures=[('bound', 'xt_bound == *v && xt_binds == __CPROVER_old(xt_binds) + 1')], assigns='xt_bound, xt_binds')
+    DEC_F = '(self->_dists.e[*to].e[*from] < -*dist)'
+    DEC_T = '(self->_dists.e[*from].e[*to] <= *dist)'
+    NEWV = '__CPROVER_old(%s->assigns.n)' % SATP
+    REL_X = '((WIDE_t)xt_x[*to] - (WIDE_t)xt_x[*from] <= (WIDE_t)*dist)'
+    cnd = Contract(
+        requires=['__CPROVER_is_fresh(self, sizeof(*self)) && __CPROVER_is_fresh(from, sizeof(*from)) && __CPROVER_is_fresh(to, sizeof(*to)) && __CPROVER_is_fresh(dist, sizeof(*dist)) && __CPROVER_is_fresh(%s, sizeof(*%s))' % (SATP, SATP),
+                  '__exc == 0 && sp_x_ok() && *from < XT_NTP && *to < XT_NTP && *dist >= -64 && *dist <= 64 && xt_binds == 0',
+                  'sp_D_shape(self->_dists) && sp_x_consistent(self->_dists)', '%s->assigns.n >= 1 && %s->assigns.n < 6' % (SATP, SATP),
+                  'self->var_dists.n == 0 && self->dist_constrs.n <= 1 && (self->dist_constrs.n < 1 || (self->dist_constrs.e[0].second.n <= 1 && self->dist_constrs.e[0].first.first < XT_NTP && self->dist_constrs.e[0].first.second < XT_NTP))'],
+        ensures=[('noexcept', '__exc == 0'),
+                 ('false_only_when_the_distances_refute_it', '%s.x != smt_FALSE_lit.x || (%s && !%s)' % (R, DEC_F, REL_X)),
+                 ('true_only_when_the_distances_imply_it', '%s.x != smt_TRUE_lit.x || (!%s && %s && %s)' % (R, DEC_F, DEC_T, REL_X)),
+                 ('decided_cases_create_nothing', '!(%s || %s) || ((%s.x == smt_FALSE_lit.x || %s.x == smt_TRUE_lit.x) && %s->assigns.n == %s && self->var_dists.n == 0 && xt_binds == 0)' % (DEC_F, DEC_T, R, R, SATP, NEWV)),
+                 ('open_case_registers_exactly_this_constraint',
+                  '(%s || %s) || (%s.x == (U_t)((%s << 1) + 1) && %s->assigns.n == %s + 1 && xt_binds == 1 && xt_bound == %s && self->var_dists.n == 1 && self->var_dists.e[0].first == %s && '
+                  'self->var_dists.e[0].second->b.x == %s.x && self->var_dists.e[0].second->from == *from && self->var_dists.e[0].second->to == *to && self->var_dists.e[0].second->dist == *dist && '
+                  'spd_registered(__CPROVER_old(self->dist_constrs), self->dist_constrs, *from, *to, self->var_dists.e[0].second))' % (DEC_F, DEC_T, R, NEWV, SATP, NEWV, NEWV, NEWV, R))],
+        assigns='__exc, xt_bound, xt_binds, %s->assigns, self->var_dists, self->dist_constrs' % SATP)
+    GH = '''U_t xt_bound; U_t xt_binds;   /* ghost: the variable last bound to the theory, number of bind() calls */
+/* after == before with c appended to the constraints registered between from and to (a new entry if there was none) */
+static inline _Bool spd_registered(struct map_pair_U_U_vec_idl_distancep before, struct map_pair_U_U_vec_idl_distancep after, U_t from, U_t to, struct smt_idl_theory_idl_distance *c)
+{
+  _Bool had = 0;
+  for (U_t k = 0; k < 2; k++) if (k < before.n && before.e[k].first.first == from && before.e[k].first.second == to) had = 1;
+  if (after.n != before.n + (had ? 0 : 1)) return 0;
+  _Bool seen = 0;
+  for (U_t k = 0; k < 2; k++)
+    if (k < after.n)
+    {
+      if (after.e[k].first.first == from && after.e[k].first.second == to)
+      {
+        seen = 1;
+        if (after.e[k].second.n < 1 || after.e[k].second.e[after.e[k].second.n - 1] != c) return 0;
+        if (had) { for (U_t q = 0; q < 2; q++) if (q < before.n && before.e[q].first.first == from && before.e[q].first.second == to) { if (after.e[k].second.n != before.e[q].second.n + 1) return 0; if (before.e[q].second.n == 1 && after.e[k].second.e[0] != before.e[q].second.e[0]) return 0; } }
+        else if (after.e[k].second.n != 1) return 0;
+      }
+      else
+      {
+        _Bool kept = 0;
+        for (U_t q = 0; q < 2; q++) if (q < before.n && before.e[q].first.first == after.e[k].first.first && before.e[q].first.second == after.e[k].first.second && before.e[q].second.n == after.e[k].second.n && (before.e[q].second.n < 1 || before.e[q].second.e[0] == after.e[k].second.e[0])) kept = 1;
+        if (!kept) return 0;
+      }
+    }
+  return seen;
+}
+'''
+    out.append(Job('idl.new_distance', NEWD, tus=TUS + ['smt/theory.cpp'], contract=cnd, defines=d, unwind=4, model_unwind=8, spec_headers=SPEC, exceptions=True,
+                   callee_contracts={NV: c_nv, BIND: c_bind}, replace=[NV, BIND], ghost=GH, harness_pre=hq,
+                   caps={'map': 4, 'vec_vec_I': 4, 'vec_I': 4, 'vec_lit': 2, 'vec_us': 6, 'umap_U_idl_distancep': 1, 'map_pair_U_U_vec_idl_distancep': 2, 'vec_idl_distancep': 2},
+                   abstract_fields={'smt::sat_core': ['assigns'], 'smt::theory': ['sat'], 'smt::idl_theory': ['_dists', 'var_dists', 'dist_constrs'], 'smt::lit': ['x'],
+                                    'smt::idl_theory::idl_distance': ['b', 'from', 'to', 'dist'], 'smt::rational': ['num', 'den'], 'smt::lin': ['vars', 'known_term']},
+                   timeout=3000, mem_gb=24, force_types=['std::vector<std::vector<long>>'],
+                   bounded='%d time points, |dist| <= 64, <= 1 pair with one registered constraint before the call' % d['XT_NTP']))
     return out
